@@ -1159,7 +1159,20 @@ def rule_state_anode_pair(ctx, rep, config="c-lib"):
     bad = []
     good = 0
 
+    def stored_as_anode_of(va, vs):
+        """va is the value written into the anode member of the state vs (`anode = copy_anode (..); state->anode = anode')"""
+        a_, s_v = strip_casts(f, va), strip_casts(f, vs)
+        for st in f.all_insts():
+            if st.op != "store" or strip_casts(f, st.ops[0]) != a_:
+                continue
+            pa = resolve_addr(f, st.ops[1])
+            if pa.last_field() == "parse_state.anode" and pa.root[0] == "val" and strip_casts(f, pa.root[1]) == s_v:
+                return True
+        return False
+
     def same_state(va, vs):
+        if stored_as_anode_of(va, vs):
+            return True
         la = f.inst(strip_casts(f, va))
         if la is None or la.op != "load":
             return False
@@ -1175,16 +1188,55 @@ def rule_state_anode_pair(ctx, rep, config="c-lib"):
         if b1 is not None and b2 is not None and b1.op == "load" and b2.op == "load":
             return expr.addr_str(f, b1.ops[0], 0, 3) == expr.addr_str(f, b2.ops[0], 0, 3)
         return False
+    def is_anode_load(v):
+        l_ = f.inst(strip_casts(f, v))
+        return l_ is not None and l_.op == "load" and resolve_addr(f, l_.ops[0]).last_field() == "parse_state.anode"
+
+    def leaf_loads(v, depth=0):
+        i_ = f.inst(strip_casts(f, v))
+        if i_ is not None and i_.op == "phi" and depth < 4:
+            return sum(leaf_loads(x, depth + 1) for (x, _) in i_.d["incoming"])
+        return 1 if is_anode_load(v) else 0
+
+    def pair(va, vs, depth=0):
+        """on every way that delivers the node va together with the state vs, the node is the anode of that state; nested merges are walked in step"""
+        ia, is_ = f.inst(strip_casts(f, va)), f.inst(strip_casts(f, vs))
+        if ia is not None and ia.op == "phi" and depth < 4:
+            if is_ is not None and is_.op == "phi" and is_.block is ia.block:
+                byp = dict((pb, x) for (x, pb) in is_.d["incoming"])
+                return all(pb in byp and pair(x, byp[pb], depth + 1) for (x, pb) in ia.d["incoming"])
+            return all(pair(x, vs, depth + 1) for (x, _) in ia.d["incoming"])
+        if same_state(va, vs):
+            return True
+        # the node stays the original state's and the state is a fresh copy of that very state (`*state = *orig_state'): its anode member holds the same value
+        la = f.inst(strip_casts(f, va))
+        if la is None or la.op != "load" or resolve_addr(f, la.ops[0]).last_field() != "parse_state.anode" or resolve_addr(f, la.ops[0]).root[0] != "val":
+            return False
+        base = strip_casts(f, resolve_addr(f, la.ops[0]).root[1])
+        for mc in f.all_insts():
+            if mc.is_call() and (mc.callee or "").startswith("llvm.memcpy") and len(mc.args) >= 2:
+                if strip_casts(f, mc.args[0]) == strip_casts(f, vs) and strip_casts(f, mc.args[1]) == base:
+                    return True
+        return False
+    inner = set()
     for pa_ in f.all_insts():
-        if pa_.op != "phi" or "yaep_tree_node" not in pa_.ty:
+        if pa_.op == "phi" and "yaep_tree_node" in pa_.ty:
+            for (v, _) in pa_.d["incoming"]:
+                o = strip_casts(f, v)
+                i_ = f.inst(o)
+                if i_ is not None and i_.op == "phi":
+                    inner.add(i_.id)
+    for pa_ in f.all_insts():
+        if pa_.op != "phi" or "yaep_tree_node" not in pa_.ty or pa_.id in inner:
             continue
         ins = pa_.d["incoming"]
-        if sum(1 for (v, _) in ins if (lambda l_: l_ is not None and l_.op == "load" and resolve_addr(f, l_.ops[0]).last_field() == "parse_state.anode")(f.inst(strip_casts(f, v)))) < 2:
+        if sum(leaf_loads(v) for (v, _) in ins) < 2:
             continue
-        cands = [ps for ps in pa_.block.insts if ps.op == "phi" and "parse_state" in ps.ty and [pb for (_, pb) in ps.d["incoming"]] == [pb for (_, pb) in ins]]
+        cands = [ps for ps in pa_.block.insts if ps.op == "phi" and "parse_state" in ps.ty and sorted(pb for (_, pb) in ps.d["incoming"]) == sorted(pb for (_, pb) in ins)]
         best = None
         for ps in cands:
-            okc = [same_state(va, vs) for ((va, _), (vs, _)) in zip(ins, ps.d["incoming"])]
+            by_pred = dict((pb, vs) for (vs, pb) in ps.d["incoming"])
+            okc = [pair(va, by_pred[pb]) for (va, pb) in ins]
             if best is None or sum(okc) > sum(best[1]):
                 best = (ps, okc)
         if best is None or sum(best[1]) == 0:
